@@ -1094,7 +1094,14 @@ def get_command_instance(
     """
     cname = "%sCommand" % name.lower().capitalize()
     gl = globals()
-    condition = cname not in gl
+    cls = gl.get(cname)
+    # Only concrete commands are known: the intermediate classes
+    # (ControlCommand, ...) and exceptions (UnknownCommand) are not.
+    condition = not (
+        isinstance(cls, type)
+        and issubclass(cls, Command)
+        and hasattr(cls, "args_definition")
+    )
     if condition:
         raise UnknownCommand(name)
     condition = (
